@@ -172,6 +172,9 @@ class ModelCompiler:
             archive.read_cells(ignore_sheets, ignore_hidden)
         self.defined_names = archive.read_defined_names(
             ignore_sheets, ignore_hidden)
+        # The cells have just been replaced; names bound to the cells of a
+        # workbook parsed earlier with this compiler must not survive.
+        self.model.defined_names = {}
         self.build_defined_names()
         self.link_cells_to_defined_names()
         self.build_ranges()
